@@ -712,9 +712,17 @@ class Device(object):
         self.emitted += 1
         raw = W.pack(p.cmd, p.arg0, p.arg1, p.data)
         c = self.corrupt
-        if c and c.get('at') == p.seq:
+        if c and not c.get('_done') and (c.get('at') == p.seq if not c.get('noise_only') else (p.kind == 'noise' and p.seq >= c.get('at', 0))):
+            c['_done'] = True
             raw = self._corrupt(raw, p, c)
         p.raw = raw
+        ne = self.spec.get('noise_every')
+        if ne and self.connected and p.kind != 'noise' and self.emitted % ne == 0:
+            # traffic for a stream nobody is reading (a closed stream's late packet, ids of another life of the connection)
+            self.noise_n = getattr(self, 'noise_n', 0) + 1
+            nz = Pkt(W.A_OKAY if self.noise_n % 2 else W.A_WRTE, 0x7100 + self.noise_n % 3, 0x6100 + self.noise_n % 2, b'' if self.noise_n % 2 else b'late', ready=now, kind='noise')
+            self.connq.append(nz)
+            self.probe('noise_packet')
         return p
 
     def _corrupt(self, raw, p, c):
@@ -741,6 +749,8 @@ class Device(object):
             b[20:24] = struct.pack('<I', w ^ 0xFFFFFFFF)
             p.note = 'corrupt-cmd'
             self.probe('corrupt_cmd')
+        if p.kind == 'noise':
+            self.probe('corrupt_noise_packet')
         return bytes(b)
 
     def on_packet_read(self, p, now):
@@ -756,6 +766,8 @@ class Device(object):
         if p.cmd == W.A_WRTE:
             s.read_payloads.append(p.data)
             s.read_unacked += 1
+            if p.kind == 'fail' and not any(q.kind == 'fail' for q in s.outq):
+                self.fail_fully_read = True
         elif p.cmd == W.A_OKAY:
             if p.kind == 'ack':
                 s.host_wrte_outstanding = False
@@ -1038,6 +1050,17 @@ class SyncService(object):
             out += W.sync_data(chunk)
             recs += 1
         bounds.append(len(out))
+        rc = dev.spec.get('recv_close', {}).get(path)
+        if rc is not None:
+            # the sync service dies in the middle of the transfer: some DATA records, then CLSE, no DONE / FAIL
+            keep = bounds[min(rc.get('n', 1), len(bounds) - 1)]
+            self.cur_hdrlen = 8
+            if keep:
+                self._reply(bytes(out[:keep]), now, boundaries=[b for b in bounds if b < keep])
+            self.state = 'dead'
+            dev.q_close(self.s, now)
+            dev.probe('recv_closed_mid_transfer')
+            return
         if rf and rf['at'] == 'start':
             out = bytearray()
             bounds = []
